@@ -1,21 +1,129 @@
 # -*- coding: utf-8 -*-
-"""More kernel contracts for mode U (unary kernels, copies, comparisons, ...)."""
+"""More kernel contracts for mode U: unary kernels, copies, frame-only mutators."""
 import z3
 from .core import I, R, B, dense, SV, SLV, Dict, Set, PyConst, Arr
 from . import kernels as K
 
-TABLE = []
+# name -> (kind, expectation on the dense image a=dense(self)[k] (and b=dense(other)[k]))
+UNARY = {
+    '__neg__':          dict(result='new', f=lambda a, b: -a),
+    '__abs__':          dict(result='new', f=lambda a, b: z3.If(a >= 0, a, -a)),
+    'copy':             dict(result='new', f=lambda a, b: a),
+    'copy_like':        dict(result='none', mutates=True, other=True, f=lambda a, b: b),
+    'remove_negatives': dict(result='none', mutates=True, f=lambda a, b: z3.If(a < 0, z3.RealVal(0), a)),
+    'clear':            dict(result='none', mutates=True, f=lambda a, b: z3.RealVal(0), read_only_raises=True),
+}
+TABLE = [(name, ('more', 'unary', name)) for name in UNARY]
+
+
+def spec_unary(name):
+    d = UNARY[name]
+
+    def build():
+        p = K.Pre('unary')
+        p.vec('self')
+        if d.get('other'):
+            p.vec('other')
+        return p
+
+    def requires(p, terms):
+        fs = list(p.facts)
+        for t in terms:
+            fs.append(p.rep_ok('self', t))
+            if d.get('other'): fs.append(p.rep_ok('other', t))
+        if d.get('other'):
+            fs.append(p.vecs['self']['size'] == p.vecs['other']['size'])
+        return fs
+
+    def raises_allowed(p):
+        if d.get('read_only_raises'):
+            return {'ValueError': p.vecs['self']['read_only']}
+        return {}
+
+    def ensures(p, out, k):
+        s = p.vecs['self']
+        a = dense(s['dom'], s['val'], k)
+        b = None
+        if d.get('other'):
+            o = p.vecs['other']
+            b = dense(o['dom'], o['val'], k)
+        expect = d['f'](a, b)
+        cl = []
+        if d.get('read_only_raises'):
+            cl.append(('normal return only when not read-only', z3.Not(s['read_only'])))
+        if d['result'] == 'new':
+            res = out.value
+            if not isinstance(res, SV): return [('returns a SparseVector', z3.BoolVal(False))]
+            f = out.heap.objs[res.oid]
+            cl.append(('returns a new object', z3.BoolVal(res.oid != s['ref'].oid and f['dct'].oid != s['dict'].oid)))
+            rdom, rval = out.heap.dicts[f['dct'].oid]
+            size = f['size']
+            cl.append(('result size = size', size == s['size']))
+            sdom, sval = out.heap.dicts[s['dict'].oid]
+            cl.append(('frame: self unchanged',
+                       z3.And(z3.Select(sdom, k) == z3.Select(s['dom'], k),
+                              z3.Implies(z3.Select(sdom, k), z3.Select(sval, k) == z3.Select(s['val'], k)))))
+        else:
+            cl.append(('returns None', z3.BoolVal(isinstance(out.value, PyConst) and out.value.v is None)))
+            rdom, rval = out.heap.dicts[s['dict'].oid]
+            size = out.heap.objs[s['ref'].oid]['size']
+            cl.append(('size unchanged', size == s['size']))
+        cl.append(('dense image = expected function of the dense image(s)',
+                   z3.Implies(z3.And(k >= 0, k < size), dense(rdom, rval, k) == expect)))
+        cl.append(('rep_ok(result): stored entries in range and non-zero',
+                   z3.Implies(z3.Select(rdom, k), z3.And(k >= 0, k < size, z3.Select(rval, k) != 0))))
+        if d.get('other'):
+            o = p.vecs['other']
+            odom, oval = out.heap.dicts[o['dict'].oid]
+            cl.append(('frame: other unchanged',
+                       z3.And(z3.Select(odom, k) == z3.Select(o['dom'], k),
+                              z3.Implies(z3.Select(odom, k), z3.Select(oval, k) == z3.Select(o['val'], k)))))
+        return cl
+
+    return dict(build=build, requires=requires, raises_allowed=raises_allowed, ensures=ensures, needs_cover=d['result'] == 'new')
 
 
 def spec(desc):
     return SPECS[desc[1]](*desc[2:])
 
 
-SPECS = {}
+SPECS = {'unary': spec_unary}
+
+
+def native_unary(name, desc, inputs):
+    import numpy as np, sys
+    sp = sys.modules['thermosteam.base.sparse']
+    d = UNARY[name]
+    s = inputs['self']
+    a = sp.SparseVector.from_dict({int(k): v for k, v in s['dct'].items()}, s['size'])
+    if s.get('read_only'): a.read_only = True
+    a0 = a.to_array().copy()
+    args = []
+    b0 = None
+    if d.get('other'):
+        o = inputs['other']
+        b = sp.SparseVector.from_dict({int(k): v for k, v in o['dct'].items()}, o['size'])
+        b0 = b.to_array().copy(); args.append(b)
+    failed = []
+    try:
+        r = getattr(a, name)(*args)
+    except ValueError as e:
+        if not (d.get('read_only_raises') and s.get('read_only')): failed.append(f'unexpected ValueError {e}')
+        return failed
+    except Exception as e:
+        return [f'unexpected {type(e).__name__}: {e}']
+    expect = {'__neg__': -a0, '__abs__': abs(a0), 'copy': a0, 'copy_like': b0, 'remove_negatives': np.where(a0 < 0, 0., a0),
+              'clear': np.zeros_like(a0)}[name]
+    tgt = r if d['result'] == 'new' else a
+    if d['result'] == 'new' and (r is a or r.dct is a.dct): failed.append('returns a new object')
+    if not np.allclose(tgt.to_array(), expect): failed.append('dense image = expected function of the dense image(s)')
+    if any(v == 0 or not (0 <= k < tgt.size) for k, v in tgt.dct.items()): failed.append('rep_ok(result)')
+    if d['result'] == 'new' and not np.array_equal(a.to_array(), a0): failed.append('frame: self unchanged')
+    return failed
 
 
 def native_check(name, desc, inputs):
     return NATIVE[desc[1]](name, desc, inputs)
 
 
-NATIVE = {}
+NATIVE = {'unary': native_unary}
